@@ -11,8 +11,8 @@ import lib
 from lib import clist, cstr, cbool, copt
 
 warnings.filterwarnings("ignore")
-N = {"quick": 150, "thorough": 2600}          # worlds (each world: 2 layouts, ~10 transforms, ~6 composites, 2 backends)
-N_MALFORMED = {"quick": 220, "thorough": 3000}
+N = {"quick": 50, "thorough": 600}          # worlds (each world: 2 layouts, ~10 transforms, ~6 composites, 2 backends)
+N_MALFORMED = {"quick": 180, "thorough": 1500}
 
 
 # ---------------------------------------------------------------------------------------------- values and frames
@@ -49,6 +49,14 @@ def jsonable(v):
     return v
 
 
+def native_col(vals):
+    """a column of canonical or raw cells -> plain Python cells of one numeric kind (float when any cell is fractional)"""
+    vals = [jsonable(v) for v in vals]
+    if any(isinstance(v, float) for v in vals):
+        vals = [float(v) if isinstance(v, int) and not isinstance(v, bool) else v for v in vals]
+    return vals
+
+
 def cval(v):
     v = canon(v)
     if v is None:
@@ -76,13 +84,13 @@ def to_pandas(t):
     import pandas as pd
     cols = t["cols"]
     if len(set(cols)) != len(cols):
-        return pd.DataFrame([list(r) for r in t["rows"]], columns=cols)
-    return pd.DataFrame({c: [r[j] for r in t["rows"]] for j, c in enumerate(cols)})
+        return pd.DataFrame([[jsonable(v) for v in r] for r in t["rows"]], columns=cols)
+    return pd.DataFrame({c: native_col([r[j] for r in t["rows"]]) for j, c in enumerate(cols)})
 
 
 def to_polars(t):
     import polars as pl
-    return pl.DataFrame({c: [r[j] for r in t["rows"]] for j, c in enumerate(t["cols"])})
+    return pl.DataFrame({c: native_col([r[j] for r in t["rows"]]) for j, c in enumerate(t["cols"])})
 
 
 def from_frame(df):
@@ -162,20 +170,34 @@ def frame_for(backend, t):
     return to_pandas(t) if backend == "pandas" else to_polars(t)
 
 
-def observe_transform(mp, t, backend):
-    """-> ("ok", table) | ("raise", class name) | ("junk", table)"""
-    try:
-        df = frame_for(backend, t)
-    except Exception as e:
-        return ("raise-constructing-frame", type(e).__name__)
+def exc_name(e):
+    """class name; exceptions raised by Polars itself are marked (Polars may raise: that is not a disagreement)"""
+    mod = type(e).__module__ or ""
+    return ("polars." if mod.split(".")[0] == "polars" else "") + type(e).__name__
+
+
+def observe_transform(mp, t, backend, raw=None):
+    """-> (status, payload, frame): ("ok", table, result frame) | ("raise", class name, None) | ("junk", table, frame).
+    `raw`: a frame produced by a previous transform, passed on as it is (sequential application keeps the dtypes)"""
+    if raw is not None:
+        df = raw
+    else:
+        try:
+            df = frame_for(backend, t)
+        except Exception as e:
+            return ("raise-constructing-frame", exc_name(e), None)
     try:
         r = mp.transform(df)
     except Exception as e:
-        return ("raise", type(e).__name__)
+        return ("raise", exc_name(e), None)
     o = from_frame(r)
     if any(not isinstance(c, str) for c in o["cols"]):
-        return ("junk", {"cols": [str(c) for c in o["cols"]], "rows": o["rows"]})
-    return ("ok", o)
+        return ("junk", {"cols": [str(c) for c in o["cols"]], "rows": o["rows"]}, r)
+    return ("ok", o, r)
+
+
+def polars_own_raise(o):
+    return o[0] != "ok" and isinstance(o[1], str) and (o[1].startswith("polars.") or o[1] in ("TypeError",) or o[0] == "raise-constructing-frame")
 
 
 def spec_obj_args(s):
@@ -334,7 +356,14 @@ def gen_world(rng, tier):
     recs = []
     for k in keys:
         recs.append((k, {n: (None if rng.random() < null_rate else gen_value(rng, types[n])) for n in names}))
-    return {"rk": rk, "names": names, "A": A, "B": B, "recs": recs, "types": types}
+    L = None
+    if len(names) >= 3 and rng.random() < 0.35:
+        # a layout over a proper subset of the names: A -> L is a strict map that DROPS values (it has no inverse)
+        sub = [n for n in names if rng.random() < 0.6]
+        while len(sub) < 2 or len(sub) == len(names) or all(len(sub) % d for d in range(2, 7)):
+            sub = names[:rng.choice([k for k in range(2, len(names)) if any(k % d == 0 for d in range(2, 7))])]
+        L = gen_layout(rng, sub, rk)
+    return {"rk": rk, "names": names, "A": A, "B": B, "L": L, "recs": recs, "types": types}
 
 
 def form_rows(w, rng=None, extra=False):
@@ -402,7 +431,7 @@ def oracle_roundtrip(m, data, backend):
     o = observe_transform(mp, data, backend)
     if o[0] != "ok":
         return "transform: %s %s" % (o[0], o[1] if isinstance(o[1], str) else "")
-    o2 = observe_transform(inv, o[1], backend)
+    o2 = observe_transform(inv, o[1], backend, raw=o[2])
     if o2[0] != "ok":
         return "inverse transform: %s %s" % (o2[0], o2[1] if isinstance(o2[1], str) else "")
     return equivalent(o2[1], restrict(data, list(mp.columns_needed)))
@@ -415,7 +444,7 @@ def oracle_compose(m1, m2, data, backend, via):
     o = observe_transform(mp2, data, backend)
     if o[0] != "ok":
         return ("seq-raises", o[1] if isinstance(o[1], str) else o[0]), None
-    o = observe_transform(mp1, o[1], backend)
+    o = observe_transform(mp1, o[1], backend, raw=o[2])
     if o[0] != "ok":
         return ("seq-raises", o[1] if isinstance(o[1], str) else o[0]), None
     seq = o[1]
@@ -427,6 +456,8 @@ def oracle_compose(m1, m2, data, backend, via):
         return ("none", ""), None
     oc = observe_transform(c, data, backend)
     leak = suffix_leak(c)
+    if backend == "polars" and polars_own_raise(oc):
+        return ("polars-raises", oc[1]), leak
     if oc[0] != "ok":
         return ("differs", "composite raises %s where the sequence returns a table" % (oc[1] if isinstance(oc[1], str) else oc[0])), leak
     d = equivalent(oc[1], seq)
@@ -461,6 +492,30 @@ def oracle_agree(m, data):
     return ("agree", "") if d is None else ("differs", d)
 
 
+def oracle_helpers(w, rng):
+    """pivot_rowrecs_to_blocks / pivot_blocks_to_rowrecs (the SQL-unpivot/pivot conveniences): the documented layout
+    (one block row per value column, key column = the column's name) and there-and-back"""
+    from data_algebra.cdata import pivot_rowrecs_to_blocks, pivot_blocks_to_rowrecs
+    kc, vc = "attr_key_col", "attr_val_col"
+    if kc in w["names"] or vc in w["names"] or kc in w["rk"] or vc in w["rk"]:
+        return None
+    to_b = pivot_rowrecs_to_blocks(attribute_key_column=kc, attribute_value_column=vc, record_keys=list(w["rk"]), record_value_columns=list(w["names"]))
+    to_r = pivot_blocks_to_rowrecs(attribute_key_column=kc, attribute_value_column=vc, record_keys=list(w["rk"]), record_value_columns=list(w["names"]))
+    data = form_rows(w, rng)
+    expected = {"cols": list(w["rk"]) + [kc, vc], "rows": [list(k) + [n, cells[n]] for k, cells in w["recs"] for n in w["names"]]}
+    o = observe_transform(to_b, data, "pandas")
+    if o[0] != "ok":
+        return "pivot_rowrecs_to_blocks: transform %s" % o[0]
+    d = equivalent(o[1], expected)
+    if d is not None:
+        return "pivot_rowrecs_to_blocks differs from the documented layout: " + d
+    o2 = observe_transform(to_r, o[1], "pandas", raw=o[2])
+    if o2[0] != "ok":
+        return "pivot_blocks_to_rowrecs: transform %s" % o2[0]
+    d = equivalent(o2[1], restrict(data, list(w["rk"]) + list(w["names"])))
+    return None if d is None else "pivot_blocks_to_rowrecs(pivot_rowrecs_to_blocks(t)) differs from t: " + d
+
+
 def shrink_rows(data, fails, rk=()):
     """fewest RECORDS (rows sharing a record-key tuple stay together, so complete blocks stay complete) on which
     fails(table) still holds"""
@@ -469,7 +524,10 @@ def shrink_rows(data, fails, rk=()):
     for i, r in enumerate(data["rows"]):
         groups.setdefault(tuple(str(r[j]) for j in ki), []).append(i)
     gs = list(groups.values())
-    pick = lambda sel: {"cols": data["cols"], "rows": [data["rows"][i] for g in sel for i in g]}
+
+    def pick(sel):                       # the rows of the chosen records, in their original order
+        keep = sorted(i for g in sel for i in g)
+        return {"cols": data["cols"], "rows": [data["rows"][i] for i in keep]}
     sel = lib.shrink_list(gs, lambda sub: len(sub) > 0 and fails(pick(sub)), max_steps=60)
     return pick(sel)
 
@@ -487,13 +545,26 @@ def run_oracle(r):
     if k == "agree":
         st, det = oracle_agree(r["map"], r["data"])
         return det if st == "differs" else None
+    if k == "helpers":
+        w = r["world"]
+        return oracle_helpers({"rk": w["rk"], "names": w["names"], "recs": [(tuple(k), c) for k, c in w["recs"]]}, None)
     raise ValueError("unknown oracle " + k)
+
+
+def spec_names(a):
+    ck = a["ctk"] if a["ctk"] is not None else a["cols"][:1]
+    return {r[j] for r in a["rows"] for j, c in enumerate(a["cols"]) if c not in ck}
+
+
+def is_lossy(m):
+    """a blocks -> blocks map whose output layout uses only some of the input layout's value names"""
+    return m["bin"] is not None and m["bout"] is not None and spec_names(m["bout"]) < spec_names(m["bin"])
 
 
 def compose_signature(r):
     _, leak = oracle_compose(r["map1"], r["map2"], r["data"], r["backend"], r.get("via", "compose"))
     shape = ("rows" if r["map2"]["bin"] is None else "blocks") + "->" + ("rows" if r["map1"]["bout"] is None else "blocks")
-    return {"oracle": "compose", "composite": shape, "suffix_leak": bool(leak)}
+    return {"oracle": "compose", "composite": shape, "suffix_leak": bool(leak), "lossy": is_lossy(r["map2"])}
 
 
 # ---------------------------------------------------------------------------------------------- Coq terms
@@ -513,23 +584,6 @@ def comap(mp):
 
 def cmapargs(m):
     return "%s %s %s" % (copt(None if m["bin"] is None else csarg(m["bin"])), copt(None if m["bout"] is None else csarg(m["bout"])), cbool(m["strict"]))
-
-
-def keys_sortable(t, keys):
-    """every key cell non-null and each key column of one kind: then pandas' row order is defined and modelled"""
-    for k in keys:
-        if k not in t["cols"]:
-            return False
-        j = t["cols"].index(k)
-        kinds = set()
-        for r in t["rows"]:
-            v = canon(r[j])
-            if v is None or isinstance(v, bool):
-                return False
-            kinds.add("s" if isinstance(v, str) else "n")
-        if len(kinds) > 1:
-            return False
-    return True
 
 
 def term_transform(m, data, obs, exact):
@@ -663,8 +717,8 @@ def run(chk):
         stats[k] = 0
 
     def violation(what, rep, sig, shrinker=None):
-        if any(lib.match_sig(f.get("signature", {}), sig or {}) for f in chk.known):
-            shrinker = None             # a listed finding: no need to minimise it again
+        if any(lib.match_sig(f.get("signature", {}), sig or {}) for f in chk.known) or len(chk.violations) >= 3:
+            shrinker = None             # a listed finding, or enough minimised failures already
         if shrinker is not None:
             try:
                 rep = shrinker(rep)
@@ -713,152 +767,189 @@ def run(chk):
                 violation(kf["what"], r, compose_signature(r) if r["oracle"] == "compose" else {"oracle": r["oracle"]})
 
     # ---- worlds
+    def note_polars(status, detail=""):
+        stats[status] += 1
+        if status == "polars_raises":
+            chk.dist("polars_raise_" + str(detail))
+
+    pair_pool = [(("A", "B"), ("rows", "A")), (("B", "rows"), ("A", "B")), (("B", "A"), ("A", "B")), (("A", "rows"), ("rows", "A")),
+                 (("rows", "A"), ("A", "rows")), (("rows", "B"), ("A", "rows")), (("A", "B"), ("rows", "B")), (("B", "rows"), ("rows", "B"))]
     for wi in range(N[tier]):
         w = gen_world(rng, tier)
         A, B = w["A"], w["B"]
         nontrivial = len(w["recs"]) > 0
         chk.dist("records_%d" % len(w["recs"])); chk.dist("record_keys_%d" % len(w["rk"])); chk.dist("cells_%02d" % len(w["names"]))
         chk.dist("ctrl_keys_%d" % len(A["ctk"])); chk.dist("ctrl_rows_%d" % len(A["rows"]))
-        maps = [("rows", "A"), ("A", "rows"), ("A", "B"), ("B", "A"), ("rows", "B"), ("B", "rows")]
         lay = {"rows": None, "A": A, "B": B}
+        shapes = [("rows", "A"), ("A", "rows"), ("A", "B"), ("B", "A"), ("rows", "B"), ("B", "rows")]
+        pairs = list(pair_pool)
+        if w["L"] is not None:
+            lay["L"] = w["L"]
+            shapes += [("A", "L"), ("L", "rows")]
+            pairs += [(("L", "rows"), ("A", "L")), (("A", "L"), ("rows", "A"))] * 2
+            chk.dist("world_with_lossy_layout")
         mk = lambda i, o: {"bin": lay[i], "bout": lay[o], "strict": True}
-        for (i, o) in maps:
+        datas = {k: form(w, lay[k], rng, extra=True) for k in lay}
+        built, fwd = {}, {}
+        for (i, o) in shapes:
             m = mk(i, o)
-            data = form(w, lay[i], rng, extra=True)
+            data = datas[i]
             expected = form(w, lay[o])
-            key = (json.dumps(m, sort_keys=True, default=str), json.dumps(jt(data), sort_keys=True))
-            chk.count(key, nontrivial=nontrivial)
+            if o == "rows" and lay[i] is not None and len(spec_names(lay[i])) < len(w["names"]):
+                expected = restrict(expected, list(w["rk"]) + [n for n in w["names"] if n in spec_names(lay[i])])
+            chk.count((json.dumps(m, sort_keys=True, default=str), json.dumps(jt(data), sort_keys=True)), nontrivial=nontrivial)
             chk.dist("map_" + map_shape(m))
             if wi < 2 and (i, o) == ("rows", "A"):
                 chk.sample({"map": m, "data": jt(data)})
-            # (a) reference layout, (b) round trip -- Pandas is the reference executor; Polars may raise
+            try:
+                mp = build_map(m)
+            except Exception as e:
+                violation("RecordMap/RecordSpecification constructor raises %s on a strict, well-formed specification" % type(e).__name__,
+                          {"oracle": "reference", "map": m, "data": data, "expected": expected, "backend": "pandas"},
+                          {"oracle": "constructor", "shape": map_shape(m)})
+                add_term("KMap %s false" % cmapargs(m), {"map": m, "what": "constructor"})
+                continue
+            built[(i, o)] = mp
+            lossy = is_lossy(m)
+            try:
+                inv = mp.inverse()
+                add_term("KInverse %s %s" % (cmapargs(m), copt(comap(inv))), {"map": m, "what": "inverse"})
+            except Exception as e:
+                inv = None
+                add_term("KInverse %s None" % cmapargs(m), {"map": m, "what": "inverse raises"})
+                if not lossy:
+                  violation("inverse() raises %s on a strict map whose two sides have the same record keys and value names" % type(e).__name__,
+                          {"oracle": "roundtrip", "map": m, "data": data, "backend": "pandas"}, {"oracle": "inverse-raises", "shape": map_shape(m)})
             for backend in ("pandas", "polars"):
-                d = oracle_reference(m, data, expected, backend)
-                if backend == "polars" and d is not None and (d.startswith("transform: raise") or d.startswith("constructor")):
+                o1 = observe_transform(mp, data, backend)
+                fwd[(i, o, backend)] = o1
+                if backend == "polars" and o1[0] != "ok":
                     continue
+                # (a) the documented layout
                 stats["reference_checked"] += 1
+                d = ("transform: %s %s" % (o1[0], o1[1] if isinstance(o1[1], str) else "")) if o1[0] != "ok" else equivalent(o1[1], expected)
                 if d is not None:
                     violation("RecordMap.transform (%s, %s) differs from the documented layout: %s" % (map_shape(m), backend, d),
                               {"oracle": "reference", "map": m, "data": data, "expected": expected, "backend": backend},
                               {"oracle": "reference", "backend": backend, "shape": map_shape(m)})
                     continue
-                d = oracle_roundtrip(m, data, backend)
-                if backend == "polars" and d is not None and "raise" in d:
+                # (b) there and back
+                if inv is None:
+                    continue
+                o2 = observe_transform(inv, o1[1], backend, raw=o1[2])
+                if backend == "polars" and o2[0] != "ok":
                     continue
                 stats["roundtrip_checked"] += 1
+                d = ("inverse transform: %s %s" % (o2[0], o2[1] if isinstance(o2[1], str) else "")) if o2[0] != "ok" \
+                    else equivalent(o2[1], restrict(data, list(mp.columns_needed)))
                 if d is not None:
                     violation("inverse() round trip (%s, %s) does not return the original table: %s" % (map_shape(m), backend, d),
                               {"oracle": "roundtrip", "map": m, "data": data, "backend": backend},
                               {"oracle": "roundtrip", "backend": backend, "shape": map_shape(m)}, shrink_data)
             # (d) Pandas vs Polars
-            st, det = oracle_agree(m, data)
+            a, b = fwd[(i, o, "pandas")], fwd[(i, o, "polars")]
             stats["agree_checked"] += 1
-            if st == "polars-raises":
-                stats["polars_raises"] += 1
-                chk.dist("polars_raise_" + str(det))
-            elif st == "both-raise":
-                stats["both_raise"] += 1
-            elif st == "agree":
-                stats["polars_agree"] += 1
+            if a[0] != "ok" and b[0] != "ok":
+                note_polars("both_raise")
+            elif b[0] != "ok":
+                note_polars("polars_raises", b[1] if isinstance(b[1], str) else b[0])
             else:
-                violation("Pandas and Polars disagree on RecordMap.transform (%s): %s" % (map_shape(m), det),
-                          {"oracle": "agree", "map": m, "data": data, "backend": "both"}, {"oracle": "agree", "shape": map_shape(m)}, shrink_data)
-            # correspondence: transform on Pandas, inverse
-            try:
-                mp = build_map(m)
-            except Exception:
-                add_term("KMap %s false" % cmapargs(m), {"map": m, "what": "constructor"})
-                continue
-            obs = observe_transform(mp, data, "pandas")
-            needed = list(mp.columns_needed)
-            exact = obs[0] == "ok" and keys_sortable(data, [c for c in needed if c in w["rk"] or (m["bin"] and c in m["bin"]["ctk"])]) \
-                and (m["bout"] is None or True)
-            add_term(term_transform(m, data, obs, exact), {"map": m, "data": jt(data), "observed": obs[0]})
-            try:
-                inv = mp.inverse()
-                add_term("KInverse %s %s" % (cmapargs(m), copt(comap(inv))), {"map": m, "what": "inverse"})
-            except Exception:
-                add_term("KInverse %s None" % cmapargs(m), {"map": m, "what": "inverse raises"})
+                d = "pandas %s, polars returns a table" % a[0] if a[0] != "ok" else equivalent(a[1], b[1])
+                if d is None:
+                    note_polars("polars_agree")
+                else:
+                    violation("Pandas and Polars disagree on RecordMap.transform (%s): %s" % (map_shape(m), d),
+                              {"oracle": "agree", "map": m, "data": data, "backend": "both"}, {"oracle": "agree", "shape": map_shape(m)}, shrink_data)
+            # correspondence: transform on Pandas (exact columns, exact row order)
+            obs = fwd[(i, o, "pandas")]
+            add_term(term_transform(m, data, obs, obs[0] == "ok"), {"map": m, "data": jt(data), "observed": obs[0], "expected": jt(expected)})
         # (c) composites: first m2, then m1   (m1.compose(m2), m2 >> m1)
-        pairs = [(("A", "B"), ("rows", "A")), (("B", "rows"), ("A", "B")), (("B", "A"), ("A", "B")), (("A", "rows"), ("rows", "A")),
-                 (("rows", "A"), ("A", "rows")), (("rows", "B"), ("A", "rows")), (("A", "B"), ("rows", "B")), (("B", "rows"), ("rows", "B"))]
-        for (p1, p2) in pairs:
+        for (p1, p2) in (pairs if tier == "thorough" else rng.sample(pairs, 4)):
+            if p1 not in built or p2 not in built:
+                continue
             m1, m2 = mk(*p1), mk(*p2)
-            data = form(w, lay[p2[0]], rng, extra=False)
+            mp1, mp2 = built[p1], built[p2]
+            data = datas[p2[0]]
             via = rng.choice(["compose", ">>"])
             chk.count(("compose", json.dumps([m1, m2], sort_keys=True, default=str), json.dumps(jt(data), sort_keys=True)), nontrivial=nontrivial)
-            for backend in ("pandas", "polars"):
-                try:
-                    (st, det), leak = oracle_compose(m1, m2, data, backend, via)
-                except Exception as e:
-                    st, det, leak = "seq-raises", type(e).__name__, None
-                if st == "none":
-                    stats["compose_none"] += backend == "pandas"
-                elif st == "seq-raises":
-                    stats["compose_seq_raises"] += 1
-                elif st == "compose-raises":
-                    stats["compose_raises"] += 1
-                else:
-                    stats["compose_checked"] += 1
-                    if st == "differs":
-                        shape = ("rows" if m2["bin"] is None else "blocks") + "->" + ("rows" if m1["bout"] is None else "blocks")
-                        violation("%s is not sequential application (%s, %s): %s" % ("m1.compose(m2)" if via == "compose" else "m2 >> m1", shape, backend, det),
-                                  {"oracle": "compose", "map1": m1, "map2": m2, "data": data, "backend": backend, "via": via},
-                                  {"oracle": "compose", "composite": shape, "suffix_leak": bool(leak)}, shrink_data)
-            # correspondence: compose and example_input
+            shape = ("rows" if m2["bin"] is None else "blocks") + "->" + ("rows" if m1["bout"] is None else "blocks")
             try:
-                mp1, mp2 = build_map(m1), build_map(m2)
-            except Exception:
-                continue
-            try:
-                c = mp1.compose(mp2)
-                o = "OCNone" if c is None else "(OCMap %s)" % comap(c)
-            except Exception:
-                o = "OCRaise"
-            add_term("KCompose %s %s %s %s" % (cstr(sfx), cmapargs(m1), cmapargs(m2), o), {"map1": m1, "map2": m2, "what": "compose", "observed": o[:40]})
+                c = mp1.compose(mp2) if via == "compose" else (mp2 >> mp1)
+                cst = "none" if c is None else "map"
+            except Exception as e:
+                c, cst = None, "raises"
+            o = "OCRaise" if cst == "raises" else "OCNone" if cst == "none" else "(OCMap %s)" % comap(c)
+            add_term("KCompose %s %s %s %s" % (cstr(sfx), cmapargs(m1), cmapargs(m2), o), {"map1": m1, "map2": m2, "what": "compose", "observed": o[:40], "data": jt(data), "via": via})
             try:
                 ex = from_frame(mp2.example_input(value_suffix=sfx))
                 add_term("KExample %s %s %s" % (cstr(sfx), cmapargs(m2), ctable(ex)), {"map": m2, "what": "example_input"})
             except Exception:
                 pass
+            chk.dist("composite_%s_%s" % (shape, cst))
+            if cst == "none":
+                stats["compose_none"] += 1
+                continue
+            for backend in ("pandas", "polars"):
+                f2 = fwd[p2 + (backend,)]
+                seq = observe_transform(mp1, f2[1], backend, raw=f2[2]) if f2[0] == "ok" else f2
+                if seq[0] != "ok":
+                    stats["compose_seq_raises"] += 1        # the two maps do not fit together (or Polars raises): nothing to compare
+                    continue
+                if cst == "raises":
+                    stats["compose_raises"] += 1
+                    violation("%s raises although the two maps apply one after the other (%s, %s)" % ("m1.compose(m2)" if via == "compose" else "m2 >> m1", shape, backend),
+                              {"oracle": "compose", "map1": m1, "map2": m2, "data": data, "backend": backend, "via": via},
+                              {"oracle": "compose-raises", "composite": shape})
+                    continue
+                oc = observe_transform(c, data, backend)
+                if backend == "polars" and polars_own_raise(oc):
+                    note_polars("polars_raises", "composite_" + str(oc[1]))   # Polars itself raises (mixed dtypes in a block column): not a disagreement
+                    continue
+                stats["compose_checked"] += 1
+                d = ("composite raises %s where the sequence returns a table" % (oc[1] if isinstance(oc[1], str) else oc[0])) if oc[0] != "ok" else equivalent(oc[1], seq[1])
+                if d is not None:
+                    violation("%s is not sequential application (%s, %s): %s" % ("m1.compose(m2)" if via == "compose" else "m2 >> m1", shape, backend, d),
+                              {"oracle": "compose", "map1": m1, "map2": m2, "data": data, "backend": backend, "via": via},
+                              {"oracle": "compose", "composite": shape, "suffix_leak": bool(suffix_leak(c)), "lossy": is_lossy(m2)}, shrink_data)
+        # the pivot / unpivot conveniences build the same kind of map
+        if len(w["names"]) >= 2 and (w["rk"] or len(w["recs"]) <= 1):
+            try:
+                d = oracle_helpers(w, rng)
+            except Exception as e:
+                d = "raised %s" % type(e).__name__
+            stats["helpers_checked"] = stats.get("helpers_checked", 0) + 1
+            if d is not None:
+                violation("pivot helper: " + d, {"oracle": "helpers", "world": {"rk": w["rk"], "names": w["names"], "recs": [[list(k), c] for k, c in w["recs"]]}}, {"oracle": "helpers"})
         # outside the guard: a null record key (counted, never a violation)
-        if w["rk"] and len(w["recs"]) >= 1:
+        if w["rk"] and len(w["recs"]) >= 1 and ("rows", "A") in built and rng.random() < 0.5:
             w2 = dict(w)
             w2["recs"] = [((None,) + tuple(k[1:]), c) if j == 0 else (k, c) for j, (k, c) in enumerate(w["recs"])]
             m = mk("rows", "A")
             data = form(w2, None, rng)
             stats["outside_guard_null_key"] += 1
-            try:
-                if oracle_roundtrip(m, data, "pandas") is not None:
-                    stats["outside_guard_null_key_failures"] += 1
-                mp = build_map(m)
-                obs = observe_transform(mp, data, "pandas")
-                add_term(term_transform(m, data, obs, False), {"map": m, "data": jt(data), "observed": obs[0], "note": "null record key"})
-            except Exception:
+            obs = observe_transform(built[("rows", "A")], data, "pandas")
+            add_term(term_transform(m, data, obs, False), {"map": m, "data": jt(data), "observed": obs[0], "note": "null record key"})
+            if obs[0] != "ok" or equivalent(obs[1], form(w2, A)) is not None:
                 stats["outside_guard_null_key_failures"] += 1
         # incomplete / foreign blocks (model vs code only: outside the property's hypotheses)
-        if len(w["recs"]) >= 1 and rng.random() < 0.5:
+        if len(w["recs"]) >= 1 and ("A", "rows") in built and rng.random() < 0.5:
             m = mk("A", "rows")
             data = form(w, A, rng)
             how = rng.choice(["drop-row", "foreign-key", "dup-row"])
-            if how == "drop-row" and data["rows"]:
+            if how == "drop-row":
                 data["rows"].pop(rng.randrange(len(data["rows"])))
-            elif how == "foreign-key" and data["rows"]:
+            elif how == "foreign-key":
                 j = data["cols"].index(A["ctk"][0])
                 old = data["rows"][0][j]
                 new = "zz_foreign" if isinstance(old, str) else 99
                 for r in data["rows"]:
                     if r[j] == old:
                         r[j] = new
-            elif data["rows"]:
+            else:
                 data["rows"].append(list(data["rows"][0]))
-            try:
-                mp = build_map(m)
-                obs = observe_transform(mp, data, "pandas")
-                chk.dist("degenerate_blocks_%s_%s" % (how, obs[0]))
-                add_term(term_transform(m, data, obs, False), {"map": m, "data": jt(data), "observed": obs[0], "note": how})
-            except Exception:
-                pass
+            obs = observe_transform(built[("A", "rows")], data, "pandas")
+            chk.dist("degenerate_blocks_%s_%s" % (how, obs[0]))
+            add_term(term_transform(m, data, obs, False), {"map": m, "data": jt(data), "observed": obs[0], "note": how})
 
     # ---- malformed / degenerate constructor arguments
     for _ in range(N_MALFORMED[tier]):
@@ -896,7 +987,7 @@ def run(chk):
                         m2 = {"bin": a, "bout": None, "strict": strict}
                         try:
                             mp2 = build_map(m2)
-                            obs2 = observe_transform(mp2, obs[1], "pandas")
+                            obs2 = observe_transform(mp2, obs[1], "pandas", raw=obs[2])
                             add_term(term_transform(m2, obs[1], obs2, obs2[0] == "ok"), {"map": m2, "data": jt(obs[1]), "observed": obs2[0], "note": how + " back"})
                         except Exception:
                             pass
@@ -924,24 +1015,54 @@ def run(chk):
 
 def search_after_break(chk, rng, disagreeing, violation, shrink_data):
     """a proof or correspondence broke: look for a concrete input on which the real code fails the property --
-    the disagreeing cases first (all four oracles on that input), then a larger random search"""
+    the disagreeing cases first (every oracle that applies to that input), then a larger random search"""
     found = 0
     for m in disagreeing:
-        if "map" in m and "data" in m:
-            mm = m["map"]
-            if mm["bin"] is None or mm["bout"] is None or True:
-                try:
-                    d = oracle_roundtrip(mm, m["data"], "pandas")
-                except Exception as e:
-                    d = None
-                if d is not None and not str(m.get("note", "")):
-                    violation("inverse() round trip does not return the original table: %s" % d,
-                              {"oracle": "roundtrip", "map": mm, "data": m["data"], "backend": "pandas"},
-                              {"oracle": "roundtrip", "backend": "pandas", "shape": map_shape(mm)}, shrink_data)
+        try:
+            if "map" in m and "data" in m and "expected" in m:
+                d = oracle_reference(m["map"], m["data"], m["expected"], "pandas")
+                if d is not None:
+                    violation("RecordMap.transform (%s) differs from the documented layout: %s" % (map_shape(m["map"]), d),
+                              {"oracle": "reference", "map": m["map"], "data": m["data"], "expected": m["expected"], "backend": "pandas"},
+                              {"oracle": "reference", "backend": "pandas", "shape": map_shape(m["map"])})
                     found += 1
+                    continue
+            if "map" in m and "data" in m and not m.get("note"):
+                d = oracle_roundtrip(m["map"], m["data"], "pandas")
+                if d is not None:
+                    violation("inverse() round trip does not return the original table: %s" % d,
+                              {"oracle": "roundtrip", "map": m["map"], "data": m["data"], "backend": "pandas"},
+                              {"oracle": "roundtrip", "backend": "pandas", "shape": map_shape(m["map"])}, shrink_data)
+                    found += 1
+                    continue
+            if "map1" in m and "data" in m:
+                (st, det), leak = oracle_compose(m["map1"], m["map2"], m["data"], "pandas", m.get("via", "compose"))
+                if st == "differs":
+                    r = {"oracle": "compose", "map1": m["map1"], "map2": m["map2"], "data": m["data"], "backend": "pandas", "via": m.get("via", "compose")}
+                    violation("compose is not sequential application: %s" % det, r, compose_signature(r), shrink_data)
+                    found += 1
+                    continue
+            if "spec" in m and m.get("accepted"):
+                # a specification the model rejects but the code accepts as strict: does the round trip still hold for it?
+                a = m["spec"]
+                if a.get("strict"):
+                    sp = build_spec(a)
+                    rc = list(sp.row_columns)
+                    if len(set(rc)) == len(rc):
+                        rows = [[j + 1 if c in a["rk"] else (j * 10 + k + 0.5) for k, c in enumerate(rc)] for j in range(2 if a["rk"] else 1)]
+                        mm = {"bin": None, "bout": a, "strict": True}
+                        data = {"cols": rc, "rows": rows}
+                        d = oracle_roundtrip(mm, data, "pandas")
+                        if d is not None:
+                            violation("a specification accepted as strict does not round-trip: %s" % d,
+                                      {"oracle": "roundtrip", "map": mm, "data": data, "backend": "pandas"},
+                                      {"oracle": "roundtrip", "backend": "pandas", "shape": "rows->blocks", "spec": "accepted-but-not-strict-in-model"})
+                            found += 1
+        except Exception:
+            pass
     if found:
         return
-    for _ in range(400):
+    for _ in range(300):
         w = gen_world(rng, "thorough")
         if not w["recs"]:
             continue
